@@ -130,6 +130,8 @@ VS(a, b, s, o) == VStruct("S", ("a" :> a) @@ ("b" :> VBool(b)) @@ ("s" :> VStr(s
      todo | fail | return e
    statements
      stmts s_1 .. s_n | let[x] e | check c else_e | ret e | dassert e
+     glet[x] e       (a *global* `let x = e`, e constant; written as the first statement of the
+                      body, rendered in front of the function)
      ifs[hasElse] c_1 stmts_1 .. c_n stmts_n [stmts_else] | matchs[patterns] scrutinee stmts_1 .. stmts_n
    patterns:  one entry per arm, <<"default", <<>>>> or <<"pats", << p .. >>>> with
      p = <<"pv", value>> (literal) or <<"pb", "some"|"ok"|"err", x>> (binding)
@@ -314,7 +316,7 @@ Exec(ss, i, env) ==
   IF i > Len(ss) THEN Fall(env, <<>>)
   ELSE
   LET s == ss[i] op == s[1] a == s[2] ks == s[3] IN
-  CASE op = "let" ->
+  CASE op \in {"let", "glet"} ->
          LET r == Eval(ks[1], env) IN
          IF r.k # "val" THEN Abrupt(r, env)
          ELSE PreX(r.log, Exec(ss, i + 1, (a :> r.v) @@ env))
@@ -479,6 +481,12 @@ ArmNamesFresh(ap, ctx) ==
   /\ \A i \in DOMAIN B : ~CtxHas(ctx, B[i][3])
   /\ \A i, j \in DOMAIN B : i # j => B[i][3] # B[j][3]
 
+(* constant expressions (global lets): literals and constructors of constants *)
+RECURSIVE IsConst(_)
+IsConst(e) == \/ e[1] = "lit"
+              \/ (e[1] \in {"some", "ok", "err"} /\ IsConst(e[3][1]))
+              \/ (e[1] = "struct" /\ e[2][3] = <<>> /\ \A i \in DOMAIN e[3] : IsConst(e[3][i]))
+
 RECURSIVE TypeOf(_, _, _), TypeStmts(_, _, _, _), TypeIfs(_, _, _, _, _)
 (* TypeOf(e, ctx, frt): frt = return type of the enclosing function *)
 TypeOf(e, ctx, frt) ==
@@ -561,6 +569,10 @@ TypeStmts(ss, i, ctx, frt) ==
   CASE op = "let" ->
          LET t == TypeOf(ks[1], ctx, frt) IN
          IF t = TErr \/ CtxHas(ctx, a) THEN <<TErr>> ELSE TypeStmts(ss, i + 1, Append(ctx, <<a, t>>), frt)
+    [] op = "glet" ->          \* a global: constant expression, first statement only
+         LET t == TypeOf(ks[1], ctx, frt) IN
+         IF t = TErr \/ CtxHas(ctx, a) \/ i # 1 \/ ~IsConst(ks[1]) THEN <<TErr>>
+         ELSE TypeStmts(ss, i + 1, Append(ctx, <<a, t>>), frt)
     [] op = "check" ->
          IF Fits(TypeOf(ks[1], ctx, frt), TBool) /\ TypeOf(ks[2], ctx, frt) = TNever
          THEN TypeStmts(ss, i + 1, ctx, frt) ELSE <<TErr>>
@@ -790,6 +802,11 @@ Prods(t, ctx, d, frt) ==
       Quirky ==
         UNION {{N("match", sh, <<HX(st)>> \o [i \in DOMAIN sh |-> HN(t, ArmCtx(sh[i], st, ctx))]) :
                   sh \in QuirkShapes(st, ctx)} : st \in MatchTypes}
+        \cup {N("dot", StructDefs["P"][i][1], <<Var("g0")>>) :
+                i \in {i \in DOMAIN StructDefs["P"] : CtxHas(ctx, "g0") /\ StructDefs["P"][i][2] = t}}
+        \cup (IF CtxHas(ctx, "g0") /\ t = TInt
+              THEN {Call("saturating_add", <<N("dot", "a", <<Var("g0")>>), H(TInt)>>)} ELSE {})
+        \cup (IF CtxHas(ctx, "g0") /\ t = TBool THEN {N("not", 0, <<N("dot", "b", <<Var("g0")>>)>>)} ELSE {})
         \cup (CASE t = TP -> {Partial}
                 [] t = TBool -> {N("dot", "b", <<Partial>>), N("eq", 0, <<Partial, H(TP)>>)}
                 [] t = TInt -> {N("dot", "a", <<N("cast", "Q", <<Partial>>)>>)}
@@ -876,9 +893,20 @@ SpliceS(n, p, new) ==
   IF Len(p) = 1 THEN <<n[1], n[2], SubSeq(n[3], 1, p[1] - 1) \o new \o SubSeq(n[3], p[1] + 1, Len(n[3]))>>
   ELSE <<n[1], n[2], [n[3] EXCEPT ![p[1]] = SpliceS(n[3][p[1]], Tail(p), new)]>>
 
+(* global struct constants: a correct one, one with ill-typed fields, one with a field missing
+   (the compiler checked neither: finding C24:global-struct-literal-unchecked)                *)
+GlobalConsts ==
+  {N("struct", <<"P", <<"a", "b">>, <<>>>>, <<Lit(I(1)), Lit(VT)>>),
+   N("struct", <<"P", <<"a", "b">>, <<>>>>, <<Lit(VT), Lit(I(1))>>),
+   N("struct", <<"P", <<"a">>, <<>>>>, <<Lit(MAXI)>>)}
+
 Init ==
   /\ rt \in RetTypes
-  /\ ast = Stmts(<<SHole(rt, Ctx0, StmtDepth, MaxDepth, "f")>>)
+  /\ ast \in {Stmts(<<SHole(rt, Ctx0, StmtDepth, MaxDepth, "f")>>)}
+             \cup (IF Quirks THEN {Stmts(<<N("glet", "g0", <<c>>),
+                                            SHole(rt, Append(Ctx0, <<"g0", TP>>), StmtDepth, MaxDepth, "f")>>) :
+                                     c \in GlobalConsts}
+                   ELSE {})
   /\ phase = "gen"
   /\ pick = "none"
 
